@@ -473,7 +473,6 @@ func (db *DB) SetReadOnly() error {
 	// Lock writer.
 	select {
 	case db.writeLockC <- struct{}{}:
-		db.compWriteLocking = true
 		verifAt("s.readonly.locked")
 	case err := <-db.compPerErrC:
 		return err
@@ -481,19 +480,17 @@ func (db *DB) SetReadOnly() error {
 		return ErrClosed
 	}
 
-	// Set compaction read-only.
+	// Set compaction read-only. The write lock passes to the compaction
+	// error goroutine when it takes the error; until then it is ours and we
+	// have to give it back ourselves.
 	select {
 	case db.compErrSetC <- ErrReadOnly:
 		atomic.StoreUint32(&db.compReadOnly, 1)
 	case perr := <-db.compPerErrC:
+		<-db.writeLockC
 		return perr
 	case <-db.closeC:
-		// Nobody will release the write lock on our behalf if the compaction
-		// error goroutine is already gone, and Close waits for it.
-		select {
-		case <-db.writeLockC:
-		default:
-		}
+		<-db.writeLockC
 		return ErrClosed
 	}
 
